@@ -46,9 +46,9 @@ LineKinds(f, ln) ==
       sty == ln.sty
       adv == Advance(f)
       w   == LineWidth(f, n)
-      idx == [i \in 1..n |-> IndexIn(f.exp, f.repl, ln.chars[i])]
-      cel == [i \in 1..n |-> Cell(f, idx[i])]
-      cin == [i \in 1..n |-> CellInAtlas(f, idx[i])]
+      idx == Mat([i \in 1..n |-> IndexIn(f.exp, f.repl, ln.chars[i])])
+      cel == Mat([i \in 1..n |-> Cell(f, idx[i])])
+      cin == Mat([i \in 1..n |-> CellInAtlas(f, idx[i])])
       ulc == IF n > 0 THEN EffDeco(sty.ulm, sty.ulc, sty.tc) ELSE NoCol
       stc == IF n > 0 THEN EffDeco(sty.stm, sty.stc, sty.tc) ELSE NoCol
       ulr == <<x, y + f.ul[1], w, f.ul[2]>>
